@@ -13,3 +13,6 @@ import DoviModel.Props.C04
 import DoviModel.Props.C12
 import DoviModel.Props.C14
 import DoviModel.Props.C09
+import DoviModel.Props.C20
+import DoviModel.Props.C16
+import DoviModel.Props.C17
